@@ -337,7 +337,8 @@ def check(prop, tier, seed, replay):
 
     for cid in spec_fail:
         c = case_index.get(str(cid))
-        failures.append({"case": str(cid), "class": "%s/spec-in-kernel" % prop,
+        same = [f for f in failures if c is not None and f.get("replay") == c]
+        failures.append({"case": str(cid), "class": (same[0]["class"] if same else "%s/spec-in-kernel" % prop),
                          "what": "specification function (evaluated in Coq) rejects the implementation's output",
                          "replay": c})
 
